@@ -8,6 +8,7 @@ import (
 	"encoding/json"
 	"errors"
 	"fmt"
+	"slices"
 
 	v1 "k8s.io/api/core/v1"
 	metav1 "k8s.io/apimachinery/pkg/apis/meta/v1"
@@ -21,6 +22,7 @@ import (
 	"github.com/NVIDIA/KAI-scheduler/pkg/binder/plugins"
 	"github.com/NVIDIA/KAI-scheduler/pkg/binder/plugins/state"
 	"github.com/NVIDIA/KAI-scheduler/pkg/common/constants"
+	"github.com/NVIDIA/KAI-scheduler/pkg/common/resources"
 )
 
 var InvalidCrdWarning = errors.New("invalid binding request")
@@ -123,6 +125,10 @@ func (b *Binder) reserveGPUs(ctx context.Context, pod *v1.Pod, bindRequest *v1al
 		return nil, fmt.Errorf("no SelectedGPUGroups for fractional pod: %w", InvalidCrdWarning)
 	}
 
+	if err := b.releaseForeignGpuGroups(ctx, pod, bindRequest); err != nil {
+		return nil, err
+	}
+
 	var gpuIndexes []string
 	for _, gpuGroup := range bindRequest.Spec.SelectedGPUGroups {
 		gpuIndex, err := b.resourceReservationService.ReserveGpuDevice(ctx, pod, bindRequest.Spec.SelectedNode, gpuGroup)
@@ -134,6 +140,32 @@ func (b *Binder) reserveGPUs(ctx context.Context, pod *v1.Pod, bindRequest *v1al
 		gpuIndexes = append(gpuIndexes, gpuIndex)
 	}
 	return gpuIndexes, nil
+}
+
+// releaseForeignGpuGroups detaches the pod from GPU groups that this bind request did not select. An earlier
+// attempt that never reached its rollback (the binder crashed) may have labeled the pod with the groups of a
+// bind request that the scheduler has replaced since; the pod would stay attached to those devices as well.
+func (b *Binder) releaseForeignGpuGroups(ctx context.Context, pod *v1.Pod, bindRequest *v1alpha2.BindRequest) error {
+	var foreignGpuGroups []string
+	for _, gpuGroup := range resources.GetGpuGroups(pod) {
+		if !slices.Contains(bindRequest.Spec.SelectedGPUGroups, gpuGroup) {
+			foreignGpuGroups = append(foreignGpuGroups, gpuGroup)
+		}
+	}
+	if len(foreignGpuGroups) == 0 {
+		return nil
+	}
+
+	if err := b.resourceReservationService.RemovePodGpuGroupsConnection(ctx, pod); err != nil {
+		return fmt.Errorf("failed to remove stale GPU group labels from pod <%s/%s>: %w", pod.Namespace, pod.Name, err)
+	}
+	for _, gpuGroup := range foreignGpuGroups {
+		if err := b.resourceReservationService.SyncForGpuGroup(ctx, gpuGroup); err != nil {
+			return fmt.Errorf("failed to sync reservation for stale gpu group <%s> of pod <%s/%s>: %w",
+				gpuGroup, pod.Namespace, pod.Name, err)
+		}
+	}
+	return nil
 }
 
 func (b *Binder) patchResourceReceivedTypeAnnotation(ctx context.Context, pod *v1.Pod, bindRequest *v1alpha2.BindRequest) error {
